@@ -58,6 +58,8 @@ extern int rec_real_execve(const char *path, char *const argv[], char *const env
 static const char *g_ini;
 static int g_timeout_ms = 20000;
 static int g_lift_fsize_after_call;
+static int g_pre_errno;            /* errno value the "caller" has when it enters the wrapped call */
+static size_t g_thread_stack;      /* stack size for threads created by 'Z' (0 = default) */
 static int g_markers;      /* oneshot mode: bracket the wrapper window with prctl(MARK, 1|2|3) for the tracer */
 
 /* ------------------------------------------------------------------ buffers */
@@ -558,7 +560,7 @@ static void call_run(call_t *c)
     if (c->snap) { pthread_mutex_lock(&ev_mutex); state_snapshot(&ps0); pthread_mutex_unlock(&ev_mutex); }
     c->h0 = c->snap ? heap_now() : 0;
     if (g_markers) prctl(MARK, 1, 0, 0, 0);
-    errno = 0;
+    errno = g_pre_errno;
     if (c->kind == 1) ret = execve(c->path, c->argv, c->envp);
     else ret = execv(c->path, c->argv);
     err = errno;
@@ -981,6 +983,8 @@ static void run_ops(op_t *ops, int nops)
             signal(SIGXFSZ, SIG_IGN);
             if (setrlimit(RLIMIT_FSIZE, &rl) < 0) ev_error("setrlimit");
             break; }
+        case 'e': g_pre_errno = arg_int(&op->a[0]); break;
+        case 't': g_thread_stack = (size_t) arg_ll(&op->a[0]); break;
         case 'n': { /* private UTS namespace + hostname */
             char *h = dupz(op->a[0].p, op->a[0].len);
             if (unshare(CLONE_NEWUTS) < 0) ev_error("unshare uts");
@@ -1095,7 +1099,9 @@ static void run_ops(op_t *ops, int nops)
             }
             pthread_barrier_t b; if (bar) pthread_barrier_init(&b, NULL, nt);
             pthread_t *tids = calloc(nt, sizeof *tids);
-            for (int t = 0; t < nt; t++) { th[t].bar = bar ? &b : NULL; th[t].coop_index = -1; pthread_create(&tids[t], NULL, thr_main, &th[t]); }
+            pthread_attr_t at; pthread_attr_init(&at);
+            if (g_thread_stack) pthread_attr_setstacksize(&at, g_thread_stack);
+            for (int t = 0; t < nt; t++) { th[t].bar = bar ? &b : NULL; th[t].coop_index = -1; pthread_create(&tids[t], &at, thr_main, &th[t]); }
             for (int t = 0; t < nt; t++) pthread_join(tids[t], NULL);
             i = j - 1;
             break; }
